@@ -1,6 +1,7 @@
 (* C01: the state predicate Spec.c01_dump on observed model states, from model-level facts. *)
 From Coq Require Import Lia.
 From VF Require Export Sched.ProofsObsLink.
+From VF Require Import Sched.Spec.
 From VF Require Import Sched.ProofsC01.
 Open Scope Z_scope.
 
